@@ -215,7 +215,8 @@ def enum_sequences(cfg, kind, s0, s1, depth):
 
     def rec(sp, d, acc):
         if d == 0:
-            out.append(head + acc + tail)
+            # depth ≥ 2: `get` on a slot that holds no wrapper is refused by the harness itself
+            out.append(head + acc + (tail if depth == 1 else [p for i, p in enumerate(PROBES) if sp.slot[i] is not None]))
             return
         for m, mt in M:
             sp2 = sp.clone()
@@ -321,18 +322,23 @@ def gen_ops(rng, n):
 
 # ---------------------------------------------------------------- monitor (real code only)
 
+_ARITY = {'A': 3, 'D': 2, 'C': 2, 'K': 2, 'M': 2, 'X': 1, 'T': 0, 'R': 2, 'W': 2}
+
+
 def parse_out(out):
     """→ (events [(kind, ints…)], outcome tokens, BAD tokens)"""
     toks = out.split()
     ev, bad = [], []
-    p = 0
-    ar = {'A': 3, 'D': 2, 'C': 2, 'K': 2, 'M': 2, 'X': 1, 'T': 0, 'R': 2, 'W': 2}
-    while p < len(toks):
+    p, n = 0, len(toks)
+    while p < n:
         t = toks[p]
-        if t in ar and len(toks) >= p + 1 + ar[t] and all(
-                x.lstrip('-').isdigit() for x in toks[p + 1:p + 1 + ar[t]]):
-            ev.append((t,) + tuple(int(x) for x in toks[p + 1:p + 1 + ar[t]]))
-            p += 1 + ar[t]
+        a = _ARITY.get(t)
+        if a is not None and p + 1 + a <= n:
+            try:
+                ev.append((t,) + tuple([int(x) for x in toks[p + 1:p + 1 + a]]))
+            except ValueError:
+                break
+            p += 1 + a
         elif t.startswith('BAD:'):
             bad.append(t)
             p += 1
@@ -522,9 +528,13 @@ def nontrivial(op, out):
 
 def plan(tier):
     """(depth, wrapper kinds, trait configurations) run exhaustively in this tier"""
-    p = [(1, range(4), range(8)), (2, range(4), range(8))]
+    p = [(1, [(k, c) for k in range(4) for c in range(8)]), (2, [(k, c) for k in range(4) for c in range(8)])]
     if tier == 'thorough':
-        p.append((3, range(4), range(8)))
+        # depth 3: all 8 trait configurations for the bespoke wrapper (payloads on both sides of the
+        # small-buffer threshold) and for the real TypeErasedProblem; the all-false, the all-true and one
+        # seed-chosen configuration for TypeErasedControlProblem and the required-method vtable wrapper
+        extra = 1 + (C.seed() % 6)
+        p.append((3, [(k, c) for k in (0, 1) for c in range(8)] + [(k, c) for k in (2, 3) for c in (0, extra, 7)]))
     return p
 
 
@@ -589,17 +599,19 @@ def exhaustive_stage(rep, broken, exe, tier):
     nviol = 0
     ctx = multiprocessing.get_context('fork')
     with ctx.Pool(max(2, min(C.NPROC - 2, 14))) as pool:
-        for depth, kinds, cfgs in plan(tier):
-            jobs = [(exe, dexe, k, c, a, b, depth) for k in kinds for c in cfgs for a in range(nS) for b in range(nS)]
+        for depth, kcs in plan(tier):
+            jobs = [(exe, dexe, k, c, a, b, depth) for k, c in kcs for a in range(nS) for b in range(nS)]
             t1 = time.time()
             done = 0
             for r in pool.imap_unordered(run_job, jobs, chunksize=4 if depth < 3 else 1):
                 done += 1
                 key = f'depth{depth}'
                 e = table.setdefault(key, {}).setdefault(f'kind{r["kind"]}', dict(
-                    sequences_run=0, sequences_pruned_as_refused=0, op_lines=0, cells=0))
+                    sequences_run=0, sequences_pruned_as_refused=0, op_lines=0, cells=0, trait_configurations=[]))
                 e['sequences_run'] += r['nseq']; e['sequences_pruned_as_refused'] += r['pruned']
                 e['op_lines'] += r['lines']; e['cells'] += 1
+                if r['cfg'] not in e['trait_configurations']:
+                    e['trait_configurations'] = sorted(e['trait_configurations'] + [r['cfg']])
                 for k_, v in r['cells'].items():
                     cells[k_] = cells.get(k_, 0) + v
                 for k_, v in r['events'].items():
